@@ -115,7 +115,7 @@ pub struct Driver {
     pub misuse_pm: u64,
 }
 
-const TOPICS: [&str; 3] = ["a", "b", "c/d"];
+const TOPICS: [&str; 6] = ["a", "b", "c/d", "a", "b", "e/f/g"];
 
 impl Driver {
     pub fn new(sc: Scenario, seed: u64) -> Self {
@@ -897,7 +897,7 @@ impl Driver {
         }
         if self.r.below(4) == 0 {
             let max = self.model.max_id;
-            let id = *self.r.pick(&[1u32, 2, 3, 4, 5, max]);
+            let id = if self.r.below(8) == 0 { *self.r.pick(&[30_000u32.min(max), 65_535u32.min(max), 65_536u32.min(max), 70_000u32.min(max), max - 1]) } else { *self.r.pick(&[1u32, 2, 3, 4, 5, max]) };
             if self.model.in_use.contains(&id) {
                 return self.acquire();
             }
@@ -1150,10 +1150,17 @@ impl Driver {
                             Focus::Flow | Focus::Store => 1 + self.r.below(2) as u8,
                             _ => self.r.below(3) as u8,
                         };
-                        let id = if qos > 0 { self.app_id() } else { None };
-                        if qos == 0 || id.is_some() {
-                            let p = self.our_publish(qos, id);
-                            self.send(p);
+                        // now and then a burst: many exchanges in flight / many stored packets at once
+                        let burst = if self.r.below(60) == 0 { 8 + self.r.usize(30) } else { 1 };
+                        for _ in 0..burst {
+                            if self.dead || self.model.status != St::Cd {
+                                break;
+                            }
+                            let id = if qos > 0 { self.app_id() } else { None };
+                            if qos == 0 || id.is_some() {
+                                let p = self.our_publish(qos, id);
+                                self.send(p);
+                            }
                         }
                     }
                     1 => {
@@ -1311,5 +1318,7 @@ pub fn random_scenario(r: &mut Rng, focus: Focus, hostile_pct: u64) -> Scenario 
     let idw = if r.below(4) == 0 { 4 } else { 2 };
     let _ = BTreeSet::<u32>::new();
     let speak = if r.bool() { Ver::V5 } else { Ver::V311 };
-    Scenario { role, idw, ver, focus, max_ops: 10 + r.usize(50), hostile_pct, as_client, speak, connect_first: false }
+    // (most histories are short; one in forty is long - many connections, many exchanges, ids wrapping round small ranges)
+    let max_ops = if r.below(40) == 0 { 200 + r.usize(400) } else { 10 + r.usize(50) };
+    Scenario { role, idw, ver, focus, max_ops, hostile_pct, as_client, speak, connect_first: false }
 }
